@@ -254,6 +254,14 @@ func areaRetention(r *Rng, n int, dir string) (*AreaOut, error) {
 	// C10: a load cutoff below the sweep cutoff is also a feedback loop (sweep, re-load, sweep, ... each commits a
 	// transaction and triggers an upload)
 	for _, f := range append([]OracleFailure{}, out.Oracle...) {
+		if f.Property == "C04" && f.Clause == "cutoff-disabled" {
+			// C01/C02: with the sweeper disabled no deletion is ever dropped as stale (order-independence needs it)
+			for _, pid := range []string{"C01", "C02"} {
+				g := f
+				g.Property = pid
+				out.Oracle = append(out.Oracle, g)
+			}
+		}
 		if f.Property == "C04" && strings.HasPrefix(f.Clause, "no-bounce") {
 			f.Property, f.Clause = "C10", "sweep-reload-loop/"+f.Clause
 			out.Oracle = append(out.Oracle, f)
